@@ -10,8 +10,9 @@ EXPLANATION = ("Decides two structural necessary conditions: (a) nothing is cut 
                "shard_size, documented as approximate, and the MAX_BUCKETS constant are allowed); a bucket below a threshold or "
                "outside the top-`size` in one segment can be above it after merging, so an earlier cut makes the result depend on "
                "the commit layout. (b) every aggregation collector whose field is admitted by ensure_numeric_fast (i64 and f64 fast "
-               "fields) reads per-document values through an accessor that covers both column types. Equality with an independent "
-               "computation is not decided.")
+               "fields) reads per-document values through an accessor that covers both column types; (c) every field of the "
+               "per-segment collector that holds aggregation nodes and is drained by finish is fed, unconditionally, by the "
+               "per-document collect. Equality with an independent computation is not decided.")
 
 AGGS = "searchlite_core::query::aggs::"
 THRESHOLDS = ("size", "min_doc_count", "max_doc_count")
